@@ -16,8 +16,9 @@ func init() {
 		Explanation: "Decides structural necessary conditions of path containment: " +
 			"(R1) every containment guard strings.HasPrefix(p, R) with R derived from a component root is well-formed: R is separator-terminated at the point of use (constant ending in the separator, R+sep, or the HasSuffix idiom; filepath.Clean/Join results are NOT terminated) or equality with the root is tested separately, and p is canonical (result of filepath.Join/Clean/Abs, path.Join/Clean or a Walk callback path, traced through callers) or the function additionally rejects a '..'-prefixed filepath.Rel result; " +
 			"(R2) every file-system sink of the file-tree backend takes a path derived from buildFilePath's success result (or a Walk path below it), archive entries are created only behind the unpack-directory guard, EnsureAbsPath creates directories only behind its scope checks. " +
+			"(R3) the directory walk of the file-tree backend reads a visited file only behind the backend's scope predicate (or a well-formed root+separator prefix test) on that path; the internal DirStructure.ensure, which creates directories without any check, is called only by Ensure (for the root) and by EnsureAbsPath (behind its checks). " +
 			"NOT decided: symlink traversal, platform path semantics, the run-time value of roots.",
-		Rules: []ruleFn{c18R1, c18R2},
+		Rules: []ruleFn{c18R1, c18R2, c18R3},
 	})
 }
 
@@ -581,4 +582,52 @@ func testsEqualDotDot(fn *ssa.Function, rel ssa.Value) bool {
 		}
 	})
 	return found
+}
+
+func c18R3(c *Ctx, r *Report) {
+	const rule = "C18-R3"
+	r.SetFloor(rule, 3)
+	// (a) Walk callbacks of fstree: ReadFile(path) only behind isInScope(path)
+	n := 0
+	for _, fn := range c.FuncsIn("database/storage/fstree") {
+		if _, isWalk := closurePassedTo(fn, "path/filepath.Walk"); !isWalk || len(fn.Params) == 0 {
+			continue
+		}
+		c.curPkg = "database/storage/fstree"
+		pathParam := fn.Params[0]
+		inScope := Guard{Name: "isInScope(path) / well-formed root prefix", Truthy: true, Match: func(b ssa.Value) bool {
+			if call, ok := isCallTo(b, "database/storage/fstree.FSTree.isInScope"); ok {
+				a := call.Call.Args
+				return a[len(a)-1] == ssa.Value(pathParam)
+			}
+			if call, ok := isCallTo(b, "strings.HasPrefix"); ok && call.Call.Args[0] == ssa.Value(pathParam) {
+				_, isRoot := c.rootDerived(call.Call.Args[1], 0)
+				return isRoot && sepTerminated(call.Call.Args[1], 0)
+			}
+			return false
+		}}
+		for _, ci := range callsIn(fn, "os.ReadFile", "os.Open", "os.OpenFile", "os.Remove", "os.WriteFile") {
+			n++
+			c.RequireGuards(r, rule, fmt.Sprintf("%s / %s of a visited path", fnKey(fn), calleeName(ci.Common())), fn, ci, inScope)
+		}
+	}
+	if n == 0 {
+		r.Undecided(rule, "fstree walk callbacks", "no file access in a Walk callback found")
+	}
+	// (b) who may call DirStructure.ensure
+	for _, s := range c.CallSites("utils.DirStructure.ensure") {
+		caller := fnKey(s.Fn)
+		args := s.Instr.(ssa.CallInstruction).Common().Args
+		cons := fmt.Sprintf("%s / call DirStructure.ensure", caller)
+		switch caller {
+		case "utils.(*DirStructure).ensure":
+			r.Trivial(rule, cons, "recursion towards the parent structure")
+		case "utils.(*DirStructure).Ensure":
+			r.Check(isNilConst(args[1]), rule, cons, "ensures the root itself (no relative elements)", "Ensure passes path elements to the unchecked ensure()", c.Pos(s.Instr.Pos()))
+		case "utils.(*DirStructure).EnsureAbsPath":
+			r.OK(rule, cons, "behind EnsureAbsPath's scope checks (C18-R2)")
+		default:
+			r.Bad(rule, cons, "the unchecked directory creator ensure() is called from "+caller+", bypassing EnsureAbsPath's scope checks: '..' elements create and chmod directories outside the root", c.Pos(s.Instr.Pos()))
+		}
+	}
 }
